@@ -19,6 +19,9 @@ PROPS = {
     "C05": {"modules": ["PP.Props.C05"], "level": "proof"},
     "C07": {"modules": ["PP.Props.C07"], "level": "proof"},
     "C19": {"modules": ["PP.Props.C19"], "level": "proof"},
+    "C08": {"modules": ["PP.Props.C08"], "level": "proof"},
+    "C09": {"modules": ["PP.Props.C09"], "level": "proof"},
+    "C18": {"modules": ["PP.Props.C18"], "level": "proof"},
     "C03": {"modules": ["PP.Props.C03"], "level": "other"},
     "C11": {"modules": ["PP.Props.C11"], "level": "other"},
     "C12": {"modules": ["PP.Props.C12"], "level": "other"},
